@@ -465,6 +465,13 @@ func (na *NilAnalysis) classify(ff *FuncFacts, e ast.Expr, at ast.Node, depth in
 			return MaybeNil
 		}
 		return na.classifyObjAt(ff, o, at, depth)
+	case *ast.SelectorExpr:
+		// qualified identifier of another package's variable (routers.ErrPathNotFound)
+		if v, ok := info.Uses[x.Sel].(*types.Var); ok && !v.IsField() && v.Pkg() != nil && v.Parent() == v.Pkg().Scope() {
+			if na.globalNonNil(v) {
+				return NonNil
+			}
+		}
 	}
 	return MaybeNil
 }
